@@ -185,6 +185,68 @@ fn hash_bin_keys(mode: u8, model: &Model, key: u64, len: usize) -> Vec<u64> {
     v
 }
 
+/// compute_if_present with a panicking closure while a resize is in flight: the resizing
+/// thread is frozen after forwarding a few bins; the computing thread meets a forwarding marker
+/// (or not), panics inside its closure; then the resize is released and everything must be
+/// consistent.
+fn during_resize(mode: u8, forwarded_before: u64, key_sel: u64) -> Result<(bool, bool), String> {
+    use crate::orch::Actor;
+    use flurry::verif as fvf;
+    let map: Arc<Map> = Arc::new(Map::with_hasher(HB::new(mode)));
+    let mut model = Model::new();
+    {
+        let g = map.guard();
+        for k in 0..11u64 {
+            map.insert(TKey::new(k, 0), TVal::new(100 + k), &g);
+            model.insert(k, (0, 100 + k));
+        }
+    }
+    let m = map.clone();
+    let resizer = Actor::spawn("resizer", 1, |g| g.arm_site(fvf::EV_BIN_FORWARDED, forwarded_before), move || {
+        let g = m.guard();
+        m.insert(TKey::new(11, 0), TVal::new(111), &g);
+    });
+    model.insert(11, (0, 111));
+    let frozen = resizer.wait_frozen_or_done(30_000).map_err(|e| format!("INCONCLUSIVE {e}"))?;
+    let key = key_sel % 11;
+    let met_marker = {
+        let g = map.guard();
+        let d = map.verif_dump(&g);
+        let b = (hash_of(mode, key) & (d.len as u64 - 1)) as usize;
+        matches!(d.bins.get(b), Some(flurry::verif::BinDump::Moved))
+    };
+    let m = map.clone();
+    let computer = std::thread::spawn(move || {
+        QUIET_PANICS.with(|q| q.set(true));
+        let r = std::panic::catch_unwind(std::panic::AssertUnwindSafe(|| {
+            let g = m.guard();
+            m.compute_if_present(&KQ(key), |_, _| -> Option<TVal> { std::panic::panic_any(Injected) }, &g);
+        }));
+        matches!(&r, Err(p) if p.is::<Injected>())
+    });
+    // the computing thread may have to wait for the frozen resizer (it helps the transfer and can
+    // block on a bin lock the resizer holds): release the resizer after a moment
+    let t0 = std::time::Instant::now();
+    while !computer.is_finished() && t0.elapsed().as_millis() < 50 {
+        std::thread::yield_now();
+    }
+    let finished_while_resize_open = computer.is_finished();
+    resizer.gate.release();
+    resizer.wait_done(30_000).map_err(|e| format!("INCONCLUSIVE {e}"))?;
+    resizer.join()?;
+    let propagated = computer.join().map_err(|_| "computing thread died".to_string())?;
+    let _ = last_panic();
+    if !propagated {
+        return Err("the injected panic did not reach the caller of compute_if_present".into());
+    }
+    let mut st = SeqStats::default();
+    audit_map(&map, mode, Some(&model), false, &mut st).map_err(|f| format!("after the panic and the end of the resize: {}", f.detail))?;
+    second_thread_writes(&map, &[key, 0])?;
+    audit_map(&map, mode, Some(&model), false, &mut st).map_err(|f| format!("after the second thread's writes: {}", f.detail))?;
+    let _ = frozen;
+    Ok((met_marker, finished_while_resize_open))
+}
+
 pub fn run(ctx: &Ctx) -> Outcome {
     let mut out = Outcome::new(
         "for each prepared map (random build sequence; hashers uniform/constant/samebin/mixed; list and tree bins) and each operation in \
@@ -194,6 +256,29 @@ pub fn run(ctx: &Ctx) -> Outcome {
     );
     hook::install();
     install_panic_capture();
+    if ctx.shard == 0 {
+        for mode in [IDENTITY, UNIFORM] {
+            for fwd in [1u64, 3, 6, 10, 14] {
+                for key in 0..11u64 {
+                    out.evaluations += 1;
+                    out.add("injections_during_resize", 1);
+                    out.distinct.insert(fnv(fnv(fnv(FNV_OFFSET ^ 0x18e, mode as u64), fwd), key));
+                    ledger().reset();
+                    match guarded(|| during_resize(mode, fwd, key)).unwrap_or_else(Err) {
+                        Ok((marker, early)) => {
+                            out.add("injections_during_resize_key_bin_already_forwarded", marker as u64);
+                            out.add("injections_during_resize_finished_before_resize_ended", early as u64);
+                        }
+                        Err(e) if e.starts_with("INCONCLUSIVE") => out.inconclusive.push(e),
+                        Err(e) => {
+                            out.violate("c18/compute-during-resize", format!("hasher {}, resizer stopped after {fwd} forwarded bins, key {key}: {e}", mode_name(mode)), Json::obj().with("check", Json::s("c18")).with("part", Json::s("during-resize")).with("hasher", Json::s(mode_name(mode))).with("forwarded", Json::u(fwd)).with("key", Json::u(key)));
+                            return out;
+                        }
+                    }
+                }
+            }
+        }
+    }
     let maps = ctx.q(160u64, 40_000);
     let mut st = SeqStats::default();
     let mut exhaustive = true;
